@@ -23,10 +23,17 @@ def observe(cls, data_len, pc, m, variant, rng, seed_pat):
             msg.data_set = data
         elif variant == 'bytesio':
             msg.data_set = io.BytesIO(data)
+        elif variant == 'bytesio_off':
+            # a stream positioned after a header, as storage_scu positions a Part-10 file after its meta group:
+            # the data set is what follows the current position
+            prefix = common.pat(seed_pat + 1, 1 + seed_pat % 300)
+            msg.data_set = io.BytesIO(prefix + data)
+            msg.data_set.seek(len(prefix))
         else:
             tmp = tempfile.TemporaryFile(dir=common.BUILD)
-            tmp.write(data)
-            tmp.seek(0)
+            prefix = common.pat(seed_pat + 1, 1 + seed_pat % 300) if variant == 'file_off' else b''
+            tmp.write(prefix + data)
+            tmp.seek(len(prefix))
             msg.data_set = tmp
     err = None
     obs = []
@@ -81,6 +88,8 @@ def gen_cases(tier, rng):
 
     def add(cls, n, pc, m, variant='bytes'):
         k[0] += 1
+        if variant in ('bytesio', 'file') and k[0] % 2:
+            variant += '_off'
         cases.append((cls, n, pc, m, variant, 1 + (k[0] * 7919) % 60000))
 
     hi = 20 if tier == 'quick' else 40
@@ -135,9 +144,9 @@ def main(tier, seed):
     cov['distinct_nontrivial'] = len(nontriv)
     cov['rule'] = ('exhaustive box m in 7..%d x |data| in 0..3(m-6)+2; all 23 classes x m in {7,64,1024}; '
                    'lengths within +-2 of k(m-6) for large m; 2^k-1,2^k,2^k+1 up to 2^32-1; pc ids 1..255; '
-                   'bytes / BytesIO / real file; non-trivial = at least two fragments' % (20 if tier == 'quick' else 40))
+                   'bytes / BytesIO / real file, the streams also positioned after a header; non-trivial = at least two fragments' % (20 if tier == 'quick' else 40))
     cov['distribution'] = dict(
-        variants=dict((v, sum(1 for c in obs if c['variant'] == v)) for v in ('bytes', 'bytesio', 'file')),
+        variants=dict((v, sum(1 for c in obs if c['variant'] == v)) for v in ('bytes', 'bytesio', 'bytesio_off', 'file', 'file_off')),
         fragments_max=max(len(c['obs']) for c in obs), with_data=sum(1 for c in obs if c['data_len']),
         impl_errors=sum(1 for c in obs if c['err']))
     cov['samples'] = [dict(cls=c['cls'], m=c['m'], data_len=c['data_len'], pc=c['pc'], variant=c['variant'],
